@@ -142,7 +142,13 @@ def replay_file(prop, path):
     data = json.load(open(path))
     if data.get('kind') == 'scenario':
         info = P.PROPS[prop]
-        out = run_native(['-m', data.get('driver') or info['driver']] + list(info.get('driver_args', [])) + ['--replay', path])
+        drivers = list(info.get('drivers') or [(info.get('driver'), info.get('driver_args', []))])
+        mod = data.get('driver') or drivers[0][0]
+        args = []
+        for m, ar in drivers:
+            if m == mod:
+                args = list(ar)
+        out = run_native(['-m', mod] + args + ['--replay', path])
     else:
         args = ['-m', 'bounded.native', '--contract', data['contract'], '--replay', path]
         if data.get('instance'):
@@ -287,14 +293,29 @@ def run_check(prop, tier, seed, a, t0):
                 errors.append('native %s: no generated input satisfied the precondition (vacuous monitor)' % label)
     # ---------------- bounded stand-in: scenario driver ---------------------------------------------
     scenario = None
-    if info.get('driver'):
-        out = run_native(['-m', info['driver']] + list(info.get('driver_args', [])) + ['--tier', tier, '--seed', str(seed), '--out', replay_dir],
-                         timeout=info.get('driver_timeout', {}).get(tier, 1500 if tier == 'quick' else 7200))
-        scenario = out
-        if out.get('status') == 'error':
-            errors.append('scenario driver: %s' % out.get('reason'))
-        for f in out.get('failures', []):
-            violations.append((f['id'], f['replay'], ''))
+    drivers = list(info.get('drivers') or ([(info['driver'], info.get('driver_args', []))] if info.get('driver') else []))
+    if drivers:
+        jobs = [['-m', mod] + list(args) + ['--tier', tier, '--seed', str(seed), '--out', replay_dir] for mod, args in drivers]
+        tmo = info.get('driver_timeout', {}).get(tier, 1500 if tier == 'quick' else 7200)
+        with multiprocessing.get_context('fork').Pool(min(a.jobs, len(jobs))) as pool:
+            outs = pool.starmap(run_native, [(j, tmo) for j in jobs], chunksize=1)
+        scenario = {'evaluations': 0, 'distinct_nontrivial': 0, 'samples': [], 'drivers': []}
+        for (mod, args), out in zip(drivers, outs):
+            scenario['drivers'].append({'driver': mod + ' ' + ' '.join(args), 'status': out.get('status'),
+                                        'evaluations': out.get('evaluations', 0),
+                                        'distinct_nontrivial': out.get('distinct_nontrivial', 0),
+                                        'rule': out.get('rule'), 'bound': out.get('bound'),
+                                        'known_findings_hit': out.get('known_findings_hit')})
+            scenario['evaluations'] += out.get('evaluations', 0)
+            scenario['distinct_nontrivial'] += out.get('distinct_nontrivial', 0)
+            scenario['samples'] += out.get('samples', [])[:2]
+            if out.get('status') == 'error':
+                errors.append('scenario driver %s: %s' % (mod, out.get('reason')))
+            for f in out.get('failures', []):
+                violations.append((f['id'], f['replay'], ''))
+            for k, cnt in (out.get('known_findings_hit') or {}).items():
+                if cnt:
+                    violations.append(('known:' + k, '', ''))
     # ---------------- known findings ------------------------------------------------------------------
     kf_lines = []
     reported = []
@@ -336,7 +357,7 @@ def run_check(prop, tier, seed, a, t0):
         'samples': (bounded['samples'][:3] + (scenario or {}).get('samples', [])[:3]) or
                    [{'obligation': r} for r in ob_records[:3]],
         'bounded': {'native_contract_monitors': bounded['contracts'],
-                    'scenario_driver': {k: v for k, v in (scenario or {}).items() if k not in ('samples', 'failures')},
+                    'scenario_drivers': (scenario or {}).get('drivers', []),
                     'label': 'bounded stand-in, never counted as proved'},
         'undecided': undecided,
     }
